@@ -112,6 +112,10 @@ def mutants(args):
                 cmd = [sys.executable, CHECK, prop, "--tier", "quick"]
                 if runs_env:
                     cmd += ["--runs", runs_env]
+                elif os.environ.get("VERIF_MUT_FRACTION"):
+                    # a first pass over a fraction of the quick run indices (what it catches, the full check
+                    # catches too); what it misses is re-run in full
+                    cmd += ["--runs", str(max(50, int(driver.PROPS[prop]["quick_runs"] * float(os.environ["VERIF_MUT_FRACTION"]))))]
                 p = subprocess.run(cmd, capture_output=True, text=True, env=env, cwd=VERIF_DIR, timeout=1800)
                 first = [l for l in p.stdout.splitlines() if l.startswith("  seed=")]
                 ok = p.returncode == want
